@@ -193,3 +193,14 @@ C("C19", "TestC19", P(300, timeout=900), P(2500, 16, 2400), race=True,
   level_text="Generated read workloads; explores workloads, not goroutine schedules: the race detector is happens-before based, so it reports conflicting unsynchronised accesses that were executed, independent of the interleaving hit. " + BOUNDED,
   level_note="Weakest decision of the set: goroutine schedules are whatever the runtime produced; relies on the race detector's happens-before analysis.",
   assumptions=["the Go race detector (TSan) observes every conflicting access pair that is executed", DOMAIN])
+
+C("C18", "TestC18", P(20000, timeout=900), P(150000, 16, 3000), fuzz={"target": "FuzzReader", "pkg": "checks", "seconds": 300},
+  rule="rapid-generated small valid tables of every layout, damaged by 1..4 edits: bit flips, byte sets (hostile constants), truncations, splices from a second table, byte insertions, and overwrites of structural fields located with specdec "
+       "(version, block size, hash id, block type/length, first records, restart counts/offsets, footer offsets) with 1/2/3/8-byte hostile words; the footer copy and CRC are repaired in 5/6 of the cases so that the block decoders are reached; "
+       "target: NewReader, full scans, SeekRef/SeekLog/RefsFor for original and foreign keys, the same through one- and two-table NewMerged; "
+       "oracle: every call returns records or an error - a panic, an iterator yielding more records than the file has bytes, more than 64 MiB allocated for a KiB-sized file, or no return within 60 s is a violation; "
+       "thorough additionally runs the native coverage-guided fuzzer on the same oracle; non-trivial = the damaged file still opens; distinct = hash of the case JSON",
+  technique="mutation-based property testing (rapid) plus coverage-guided fuzzing (go test -fuzz) with a crash/termination/allocation oracle",
+  level_text="Generated structural mutations of valid tables and (thorough) coverage-guided fuzzing; only crashes, non-termination and unbounded allocation are judged, any error return is fine. " + BOUNDED,
+  level_note="The 60 s watchdog is the only timing-dependent signal; typical cases take microseconds.",
+  assumptions=["object ids passed to RefsFor have the hash size of the table that was damaged"])
